@@ -63,3 +63,21 @@ func init() {
 		Prepare:     hTest("props/cli", "^TestC14", hOpts{QShards: 8, TShards: 8, QTimeout: 15 * time.Minute, TTimeout: 120 * time.Minute, Tools: []string{"tl2gen"}}),
 	}
 }
+
+func init() {
+	specs["C15"] = &spec{
+		LevelText:   "rapid-generated TL1 schemas written as 1..3 files (file names sorting differently from creation order) and the repository's schema sets, for each output language (tl2gen: go, go --split-internal, canonical, tlo with a fixed non-zero timestamp, tljson.html, php; tlgen: cpp, php) and drawn Go options: the generator is run in three fresh processes - GOMAXPROCS 1..3 with the files in order, GOMAXPROCS 3..16 with the files listed in reverse order or the containing directory listed instead, and the first configuration again; all output trees must be byte-identical (path -> content), and exit codes must agree.",
+		LevelNote:   "Each run is a new process, so Go's per-process map iteration seeds differ between the runs. Trusted: sha256 of the trees.",
+		Technique:   "property-based testing (rapid): metamorphic relation (same schema, different schedule / map seed / input listing => identical output) through the real CLIs",
+		Rule:        "non-trivial iff >= 2 input files or >= 20 output files; distinct by (schema, language, options, configurations); classes per language",
+		Assumptions: []string{"--schemaTimestamp=0 is documented as 'now' and is never used", "a schema rejected by a back end (php/cpp have their own restrictions) must be rejected identically in all runs"},
+		Prepare:     hTest("props/cli", "^TestC15", hOpts{QShards: 8, TShards: 16, QTimeout: 10 * time.Minute, TTimeout: 90 * time.Minute, Tools: []string{"tl2gen", "tlgen"}}),
+	}
+	specs["C16"] = &spec{
+		LevelText:   "Stateful property over one output directory: 2..7 steps drawn from {generate schema A/B/C (different namespaces, with or without --split-internal), drop foreign files into the output directory, plant a stale generated-looking file, delete the marker meta/meta.go}, with the runtime library either inside the output directory or at the location derived from the package paths. After every successful generation the directory must equal a pristine generation of the same schema into an empty directory (no missing, stale or foreign files, no empty directories), files whose content did not change must keep their modification time, the printed 'N untouched / M written / K deleted' line must be consistent with the observed changes, and nothing outside the output directory and the derived basictl location may change; a generation into a non-empty directory lacking the marker must be refused and leave the directory untouched.",
+		LevelNote:   "Trusted: file system of the sandbox; the pristine generation uses the same generator binary (the oracle is differential in the directory state, not in the generated contents).",
+		Technique:   "property-based testing (rapid): stateful history against a model (pristine generation) with invariants after every step",
+		Rule:        "non-trivial iff the history has >= 2 successful generations of different (schema, split) combinations, or is a refusal scenario; distinct by history",
+		Prepare:     hTest("props/cli", "^TestC16", hOpts{QShards: 8, TShards: 16, QTimeout: 10 * time.Minute, TTimeout: 90 * time.Minute, Tools: []string{"tl2gen"}}),
+	}
+}
